@@ -204,6 +204,8 @@ class RowInterp:
                 return a.mask(b)
             if isinstance(op, ast.Mult) and b > 0 and b & (b - 1) == 0:
                 return a.shift(b.bit_length() - 1)  # t * 2**k == t << k
+            if isinstance(op, ast.Mult) and any(a.cells):
+                raise RowError(f"multiplication of bit fields by {b} is not a shift: lanes are erased or smeared")
             if isinstance(op, ast.FloorDiv) and b > 0 and b & (b - 1) == 0:
                 return a.shift(-(b.bit_length() - 1))  # t // 2**k == t >> k
         if isinstance(a, RT) and isinstance(b, RT) and isinstance(op, ast.BitOr):
@@ -280,6 +282,10 @@ class RowInterp:
             args = [self.ev(a, env) for a in e.args]
             if f.id == "range":
                 return list(range(*args))
+            if f.id == "reversed":
+                return list(reversed(args[0]))
+            if f.id == "list":
+                return list(args[0])
             if f.id == "min":
                 return min(args)
             if f.id == "max":
